@@ -22,7 +22,7 @@ def stress_kw(rng):
 
 def gen_wave_case(rng, **kw):
     k = Case()
-    k.c, k.a = cg.gen_circuit(rng, **{x: kw[x] for x in ('n_gates', 'seq', 'allow_unconnected', 'allow_dangling', 'fork_style', 'branchforks', 'kinds', 'n_pi', 'distinct_ins') if x in kw})
+    k.c, k.a = cg.gen_circuit(rng, **{x: kw[x] for x in ('n_gates', 'seq', 'allow_unconnected', 'allow_dangling', 'fork_style', 'branchforks', 'kinds', 'n_pi', 'distinct_ins', 'p_nodata') if x in kw})
     k.reuse = kw.get('reuse', rng.random() < 0.5)
     k.strip = kw.get('strip', False)
     k.sims = kw.get('sims', rng.choice([1, 2, 3, 5]))
@@ -100,7 +100,7 @@ def campaign(ck, n, oracle, gen_kw=None, coq_lanes=1, label='WaveSim', coq_every
             fails.append((describe(k), what))
         if i % coq_every == 0:
             for lane in range(min(coq_lanes, k.sims)):
-                coq_cases.append(wc.coq_case(k.c, k.caps, k.reuse, k.strip, k.delays, w, lane, k.s0, k.s1, k.s2, k.extra, k.tcap))
+                coq_cases.append(wc.coq_case(k.c, k.caps, k.reuse, k.strip, k.delays, w, lane, k.s0, k.s1, k.s2, k.extra, k.tcap, a_ctrl=k.a_ctrl))
                 meta.append(describe(k))
         if i < 2:
             ck.sample({'nodes': len(k.c.nodes), 'lines': len(k.c.lines), 'delay_style': k.style, 'c_caps': str(k.caps)[:40],
